@@ -522,6 +522,7 @@ def special_shapes(ctx, P):
     T = decompress_templates(P)
     ds, cs = P.fn("DecompressScript"), P.fn("CompressScript")
     outp = cs.params[1]["n"]
+    csub = naming(cs, P)
     # rebuilt keys: compressed header = tag - 2 in {2, 3}, decompression must succeed, the 65-byte key is copied behind the push opcode
     for t, d in sorted(T.items()):
         if d["rebuilt"]:
@@ -533,7 +534,7 @@ def special_shapes(ctx, P):
     sites_ = sites(cs, lambda e: e[0] == "b" and e[1] == "=" and match(["idx", ["param", outp], ["int", 0]], e[2]), P)
     gates = {}
     for s in sites_:
-        fm = s.formula({})
+        fm = s.formula(csub)
         tags = tag_values(strip(s.expr[3]), fm)
         if not tags:
             raise AnalysisBroken("CompressScript: cannot derive the tag values at line %s" % s.line)
@@ -547,6 +548,7 @@ def special_shapes(ctx, P):
     for q, info in sorted(gates.items()):
         pf = ctx.used(P.fn(q))
         ps, po = pf.params[0]["n"], pf.params[1]["n"]
+        psub = naming(pf, P)
         alltags = sorted({t for _, tags, _ in info["sites"] for t in tags})
         if any(t not in T for t in alltags):
             ctx.ob("SpecialScripts/shape:%s" % q, "SYMMETRY", "every tag written under %s has a DecompressScript case" % q, False, cs.where, {"tags": alltags})
@@ -556,10 +558,10 @@ def special_shapes(ctx, P):
             if len(T[t]["size"]) != 1:
                 raise AnalysisBroken("DecompressScript: tag %d has no unique script size" % t)
             sizes.setdefault(next(iter(T[t]["size"])), []).append(t)
-        accepts = [e for e in exits(pf, P, {}) if e.kind == "ret" and not is_false_ret(e)]
+        accepts = [e for e in exits(pf, P, psub) if e.kind == "ret" and not is_false_ret(e)]
         used_sizes = set()
         for e in accepts:
-            A = F.mk_and([e.formula, F.to_formula(e.value, {})]) if not is_true_ret(e) else e.formula
+            A = F.mk_and([e.formula, F.to_formula(e.value, psub)]) if not is_true_ret(e) else e.formula
             where = "%s:%s" % (pf.file, e.line)
             N = [n for n in sizes if F.implies(A, F.atom("%s.size() == %d" % (ps, n)))]
             if len(N) != 1:
@@ -587,7 +589,7 @@ def special_shapes(ctx, P):
             # what is copied out of the script is what the decompressor copies back in
             okc = True
             detail = {}
-            guards_in = lambda s: F.implies(s.formula({}), F.atom("%s.size() == %d" % (ps, n)))
+            guards_in = lambda s: F.implies(s.formula(psub), F.atom("%s.size() == %d" % (ps, n)))
             if hdr is None:
                 cps = [s for s in sites(pf, call_to("memcpy"), P) if guards_in(s)]
                 okc = len(cps) == 1 and match(["u", "&", ["idx", ["param", ps], ["int", ANY]]], call_args(cps[0].expr)[1]) and tmpl["payload"] is not None and \
